@@ -12,7 +12,7 @@ def parseSeen : List String → Option ((UBox Rat × Rat × Rat) × List String)
     pure (({ xc := xc, yc := yc, angle := ang, aspect := asp, height := h, conf := cf }, c, s), ts)
   | _ => none
 
-def handle (args impl : List String) : String :=
+def handleWith (wp wv : Rat) (args impl : List String) : String :=
   let method? : Option (Option Rat × List String) := match args with
     | "iou" :: t :: rest => (rat? t).map (fun t => (some t, rest))
     | "maha" :: rest => some (none, rest)
@@ -66,7 +66,7 @@ def handle (args impl : List String) : String :=
                      flag (decide (cb.conf < minconf)) "confidence-raised" ++ flag nearThr "guard-band" ++ flag (cb.angle.isSome || tb.angle.isSome) "rotated")
                     s!"model={m.map (fun o => o.map showRat)} impl={implAttr.map (fun o => o.map showRat)}"
                 | none =>
-                  let cfg := KfD.boxCfg Gen.defaultPositionWeight Gen.defaultVelocityWeight
+                  let cfg := KfD.boxCfg wp wv
                   let z := [cb.xc, cb.yc, cb.angle.getD 0, cb.aspect, cb.height]
                   let d := boxDistance cfg state z
                   let gate := Gen.CHI2INV95.getD Gen.boxCostGateInverted 0
@@ -92,5 +92,24 @@ def handle (args impl : List String) : String :=
         | _ => bad "cand box"
       | _, _ => bad "minconf"
     | _ => bad "args"
+
+def handle (args impl : List String) : String :=
+  handleWith Gen.defaultPositionWeight Gen.defaultVelocityWeight args impl
+
+/-- `smetricw <method> minconf wp wv k …`: the same with the track's Kalman weights given -/
+def handleW (args impl : List String) : String :=
+  let (m, rest) : List String × List String := match args with
+    | "iou" :: t :: r => (["iou", t], r)
+    | "maha" :: r => (["maha"], r)
+    | r => ([], r)
+  match rest with
+  | mc :: wpT :: wvT :: r =>
+    match rat? wpT, rat? wvT with
+    | some wp, some wv =>
+      let out := handleWith wp wv (m ++ mc :: r) impl
+      if wp != Gen.defaultPositionWeight || wv != Gen.defaultVelocityWeight then
+        out.replace " F=" " F=non-default-kalman-weights," else out
+    | _, _ => bad "smetricw weights"
+  | _ => bad "smetricw"
 
 end SimVerif.Driver.SMetricD
